@@ -193,6 +193,8 @@ def run(res, programs, tier):
         _r15_3(res, P, cfgname, F)
         _r15_4(res, P, cfgname)
         if "dashu_float" in P.units:
+            _r15_6(res, P, cfgname)
+        if "dashu_float" in P.units:
             _r15_5(res, P, cfgname)
 
 
@@ -415,3 +417,75 @@ def _r15_4(res, P, cfgname):
                 res.ok("R15.4", cfgname, key, sample=dict(function=f["p"], calls=cal))
             else:
                 res.fail("R15.4", cfgname, key, "%s does not delegate to <%s as Clone>::%s (calls %s)" % (f["p"], inner, m, cal), span_loc(f["sp"]))
+
+
+# ---------------------------------------------------------------------------------------------
+# R15.6  sign discipline of the shared add/sub kernels.  `a - b` is `a + rhs_sign * b` with
+# rhs_sign = Negative; the owned-rhs forms negate b first and pass Positive, the borrowed-rhs forms pass
+# Negative.  The forms agree only if rhs_sign multiplies values that come from `rhs` and nothing else:
+# a factor applied to a value derived from `lhs` changes `a - &b` but not `a - b`.
+def _vroots(t, fn, du, S, depth=0, seen=None):
+    """argument locals a value term is rooted in, following the value (first) operand of calls, places,
+    references, casts, and every definition of a multiply-defined local"""
+    seen = seen if seen is not None else set()
+    t = strip_bb(t)
+    while isinstance(t, tuple) and depth < 40:
+        depth += 1
+        if t[0] in ('ref', 'refmut', 'place'):
+            t = t[1]
+        elif t[0] == 'cast':
+            t = t[2]
+        elif t[0] == 'call' and t[2]:
+            t = t[2][0]
+        else:
+            break
+    if isinstance(t, tuple) and t[0] == 'arg':
+        return {t[1]}
+    if isinstance(t, tuple) and t[0] == 'var' and t[1] not in seen:
+        seen.add(t[1])
+        out = set()
+        for (bb, idx, node) in du.defs.get(t[1], []):
+            if idx == "t":
+                if node["a"]:
+                    out |= _vroots(S.operand(node["a"][0]), fn, du, S, depth + 1, seen)
+            elif node["k"] == "as":
+                out |= _vroots(S.rvalue(node["rv"]), fn, du, S, depth + 1, seen)
+        return out
+    return set()
+
+
+def _r15_6(res, P, cfgname):
+    res.rule("R15.6", "in the float add/sub kernels the `rhs_sign` factor multiplies only values rooted in the `rhs` parameter (a factor on an lhs-derived value makes the borrowed-rhs forms of `-` differ from the owned ones)")
+    nf = ns = 0
+    for f in P.fns("dashu_float"):
+        b = f.get("mir")
+        if not b or "::add::" not in f["p"]:
+            continue
+        names = {v["n"]: v["p"]["l"] for v in b.get("vars", []) if not v["p"].get("p") and v["p"]["l"] <= b["argc"]}
+        if "rhs_sign" not in names or "rhs" not in names or "lhs" not in names:
+            continue
+        nf += 1
+        sg, rhs, lhs = names["rhs_sign"], names["rhs"], names["lhs"]
+        S = sym.Sym(f)
+        du = mir.defuse_of(b)
+        k = 0
+        for bb, t, fr in mir.iter_calls(b):
+            cp = fr and (fr.get("rp") or fr["p"])
+            if not cp or "sign::Sign" not in cp or not ("arith::Mul" in cp or "arith::MulAssign" in cp):
+                continue
+            args = [S.operand(a) for a in t["a"]]
+            roots = [_vroots(a, f, du, S) for a in args]
+            if not any(r == {sg} for r in roots):
+                continue
+            k += 1
+            ns += 1
+            other = [r for r in roots if r != {sg}]
+            other = other[0] if other else set()
+            key = "%s sign-mul #%d" % (f["p"], k)
+            if other == {rhs}:
+                res.ok("R15.6", cfgname, key, sample=dict(function=f["p"], call=cp[-60:], operand_rooted_in="rhs"))
+            else:
+                which = "lhs" if lhs in other else ("args %s" % sorted(other) if other else "no parameter")
+                res.fail("R15.6", cfgname, key, "%s multiplies a value rooted in %s by rhs_sign (`%s`): only rhs-derived values carry the sign of the subtraction; `a - &b` / Context::sub pass Negative here while `a - b` passes Positive" % (f["p"], which, " , ".join(sym.term_str(a, 50) for a in args)), span_loc(t["sp"]))
+    res.floor("R15.6", cfgname, nf, 6, "add kernels with lhs / rhs / rhs_sign parameters")
+    res.floor("R15.6", cfgname, ns, 12, "rhs_sign multiplications")
